@@ -373,6 +373,54 @@ def format_dispatch():
             + defn("format_choices", "list string", coq_str_list(opts)) + defn("format_option_default", "string", coq_string(const_value(dflt[0]))))
 
 
+def json_serialisation():
+    """the serialisation call of the two JSON renderers: click.echo(json.dumps(<doc>, indent=K[, ensure_ascii=.., sort_keys=.., separators=..]))
+    - the arguments of json.dumps the byte-level model (Model/OutputBytes.v) is parametrised by"""
+    mod = parse(CU)
+    imports = [ast.unparse(s) for s in mod.body if isinstance(s, (ast.Import, ast.ImportFrom))]
+    if "import json" not in imports or "import click" not in imports:
+        raise Unsupported("cli_utils: `import json` / `import click` not found at module level")
+    rebound = [n for n in ast.walk(mod) if isinstance(n, (ast.Name, ast.arg)) and getattr(n, "id", getattr(n, "arg", None)) in ("json", "click")
+               and isinstance(getattr(n, "ctx", ast.Store()), ast.Store)]
+    if rebound:
+        raise Unsupported("cli_utils: the names json / click are rebound")
+    found = []
+    for fn, docvar in (("_output_json", "output"), ("_output_sarif", "sarif_doc")):
+        body = _body(find_func(mod, fn))
+        last = body[-1]
+        echoes = [n for n in ast.walk(find_func(mod, fn)) if isinstance(n, ast.Call) and ast.unparse(n.func) in ("click.echo", "print", "sys.stdout.write", "click.secho")]
+        if len(echoes) != 1 or not (isinstance(last, ast.Expr) and last.value is echoes[0]) or ast.unparse(echoes[0].func) != "click.echo":
+            raise Unsupported(f"{fn}: expected exactly one output call, click.echo(...), as the last statement")
+        echo = echoes[0]
+        if len(echo.args) != 1 or echo.keywords:
+            raise Unsupported(f"{fn}: click.echo arguments changed: {ast.unparse(echo)}")
+        d = echo.args[0]
+        if not (isinstance(d, ast.Call) and ast.unparse(d.func) == "json.dumps" and len(d.args) == 1 and isinstance(d.args[0], ast.Name)
+                and d.args[0].id == docvar):
+            raise Unsupported(f"{fn}: expected json.dumps({docvar}, ...) inside click.echo: {ast.unparse(d)}")
+        kw = {}
+        for k in d.keywords:
+            if k.arg not in ("indent", "ensure_ascii", "sort_keys", "separators"):
+                raise Unsupported(f"{fn}: json.dumps keyword outside the model: {k.arg}")
+            kw[k.arg] = ast.literal_eval(k.value)
+        indent = kw.get("indent")
+        if isinstance(indent, bool) or not isinstance(indent, int) or indent < 1:
+            raise Unsupported(f"{fn}: json.dumps indent must be a positive integer literal (compact / string indents are outside the model)")
+        seps = kw.get("separators", (",", ": "))
+        if not (isinstance(seps, tuple) and len(seps) == 2 and all(isinstance(x, str) for x in seps)):
+            raise Unsupported(f"{fn}: separators shape")
+        for b in ("ensure_ascii", "sort_keys"):
+            if b in kw and not isinstance(kw[b], bool):
+                raise Unsupported(f"{fn}: {b} must be a boolean literal")
+        found.append((indent, kw.get("ensure_ascii", True), kw.get("sort_keys", False), seps[0], seps[1]))
+    if found[0] != found[1]:
+        raise Unsupported(f"_output_json and _output_sarif serialise differently: {found}")
+    indent, ea, sk, isep, ksep = found[0]
+    return (defn("json_dumps_indent", "nat", f"{indent}%nat") + defn("json_dumps_ensure_ascii", "bool", "true" if ea else "false")
+            + defn("json_dumps_sort_keys", "bool", "true" if sk else "false") + defn("json_dumps_item_sep", "string", coq_string(isep))
+            + defn("json_dumps_key_sep", "string", coq_string(ksep)))
+
+
 def sanitize_codec():
     f = _body(find_func(parse(CU), "_sanitize_string"))
     if len(f) != 1 or not isinstance(f[0], ast.Return):
@@ -636,6 +684,7 @@ ITEMS = [
     ("text_format", text_format),
     ("format_dispatch", format_dispatch),
     ("sanitize_codec", sanitize_codec),
+    ("json_serialisation", json_serialisation),
     ("severity_names", severity_names),
     ("cli_exit_table", exit_table),
     ("usage_exit_sites", usage_exits),
